@@ -328,10 +328,20 @@ def attempt(sc, spec):
             rc = sc.call(inj)
         except Exception as e:     # a failing picotool call is what this property is about
             err = e
+        except faults.InjectedInterrupt as e:      # (an injected Ctrl-C that the call let through)
+            err = e
     return inj, err, rc
 
 
 def internal_specs(sc):
+    specs = _internal_specs(sc)
+    # Ctrl-C instead of an error (a failure that is not an `Exception`): while the Lua writer runs and - added by
+    # run_scenario - at the first, a middle and the last write of the encoder
+    specs += [dict(sp, interrupt=True) for sp in specs if sp['kind'] == 'lua_writer_raises' and sp.get('after') in (0, 2)]
+    return specs
+
+
+def _internal_specs(sc):
     specs = []
     p8 = sc.fmt == 'p8'
     for on_pass in ((0, 1) if p8 else (0,)):
@@ -519,7 +529,9 @@ def run_spec(ctx, sc, spec, good, n):
         labs.append('lua_writer_raises_pass%d' % spec.get('on_pass', 0))
     if kind == 'section_raises' and fired:
         labs.append('section_raises_' + spec['section'])
-    if kind == 'stream_write' and fired:
+    if spec.get('interrupt'):
+        labs.append('interrupted_by_ctrl_c')
+    if kind == 'stream_write' and fired and not spec.get('interrupt'):
         key = 'kdone:' + scn_key(sc.scn)
         ctx.stats.extra[key] = ctx.stats.extra.get(key, 0) + 1
         if inj.origins and set(inj.origins) != {'temp'}:
@@ -566,6 +578,7 @@ def run_scenario(ctx, scn, si):
             ctx.stats.count('cart_regenerated_after_natural_failure')
         ctx.stats.extra.setdefault('scenarios', set()).add('%s=%d' % (scn_key(scn), n))
         specs = [{'kind': 'stream_write', 'k': k} for k in range(n)] + internal_specs(sc)
+        specs += [{'kind': 'stream_write', 'k': k, 'interrupt': True} for k in sorted({0, n // 2, n - 1}) if 0 <= k < n]
         for i, spec in enumerate(specs):
             if mine(i):
                 run_spec(ctx, sc, spec, good, n)
@@ -649,7 +662,7 @@ def vacuity(total, tier):
             'label_unreadable_failed', 'cli_luafmt_overwrite', 'cli_luamin', 'cli_writep8', 'cli_build', 'path_lib',
             'fmt_p8', 'fmt_png', 'dest_absent', 'dest_valid', 'dest_garbage', 'writer_default', 'writer_minify',
             'writer_formatter', 'label', 'no_label', 'post_batch_ok', 'cli_two_carts', 'earlier_cart_output_complete',
-            'label_fname_given',
+            'label_fname_given', 'interrupted_by_ctrl_c',
             'stream_write:p8:absent', 'stream_write:p8:valid', 'stream_write:p8:garbage',
             'stream_write:png:absent', 'stream_write:png:valid']
     need += ['section_raises_' + s for s in ('gfx', 'label', 'gff', 'map', 'sfx', 'music')]
